@@ -50,6 +50,13 @@ def streams(tier, seed):
             if p.get("dim", 0) is None:
                 p["dim"] = a["dims"][0]
             out.append([a, b, {"op": "copy", "obj": 0, "out": 2}, p, dict(p, obj=2) if "dim" not in p else dict(p, obj=2)])
+    # concatenate whose operand is stored in ANOTHER axis order and does not fit in a dimension that is not joined: the call
+    # raises part-way (after aligning), and leaves receiver and operand as they were
+    for dims_a, shape_a, dims_b, shape_b, dm in ((["x", "y"], [3, 4], ["y", "x"], [5, 2], "x"), (["x", "y", "z"], [2, 3, 4], ["z", "x", "y"], [4, 2, 5], "x"),
+                                                (["x", "y"], [3, 4], ["y", "x"], [4, 2], "nope")):
+        a = new_op(rng, 0, dims=dims_a, shape=shape_a, cplx=False, kinds=["asc"] * 4)
+        b = new_op(rng, 1, dims=dims_b, shape=shape_b, cplx=False, kinds=["asc"] * 4, salt=77)
+        out.append([a, b, {"op": "concatenate", "obj": 0, "other": 1, "dim": dm}, {"op": "set_attr", "obj": 1, "key": "k", "value": "1"}])
     n = 80 if tier == "quick" else 1200
     for _ in range(n):
         out.append(history(rng, rng.randint(3, 12)))
